@@ -1,8 +1,14 @@
 ----------------------------- MODULE SignalsOps -----------------------------
 (* C14: urwid.signals.  Pure operators over the abstract signal state, shared by the     *)
 (* state machine (Signals.tla) and the trace specification (SignalsTrace.tla).            *)
-(*   conn  : function (sender, name) -> sequence of entries [k, h, w]                     *)
-(*           k = unique connection key, h = handler id, w = weak-argument id or 0         *)
+(*   conn  : function (sender, name) -> sequence of entries [k, h, ws, us]                *)
+(*           k  = unique connection key, h = handler id,                                  *)
+(*           ws = the weak arguments given at connect time (sequence of weak-arg ids),    *)
+(*           us = the user arguments given at connect time (sequence of integers: the     *)
+(*                CONTENT of whatever iterable the caller passed, at that moment)         *)
+(*           <<h, ws, us>> is the DESCRIPTOR of the connection: what disconnect-by-       *)
+(*           arguments names.  Two descriptors are the same connection arguments iff they *)
+(*           are equal as a whole: <<a>> and <<a, b>>, or <<>> and <<a>>, are different.  *)
 (*   frame : one emit in progress                                                         *)
 (*           [s, n, snap, disc, added, called, rets, i]                                   *)
 (*           snap   = entries connected when the emit started (connection order)          *)
@@ -11,18 +17,33 @@
 (*           called = keys invoked by this emit, in order;  rets = their return values    *)
 EXTENDS Integers, Sequences, FiniteSets, TLC
 
-Entry(k, h, w) == [k |-> k, h |-> h, w |-> w]
+Entry(k, h, ws, us) == [k |-> k, h |-> h, ws |-> ws, us |-> us]
+Desc(e) == <<e.h, e.ws, e.us>>
 Keys(seq) == {seq[j].k : j \in 1..Len(seq)}
+Range(seq) == {seq[j] : j \in 1..Len(seq)}
 Filter(seq, Keep(_)) == SelectSeq(seq, Keep)
 
+HasWeak(e, w) == \E i \in 1..Len(e.ws) : e.ws[i] = w
+WeakAlive(e, alive) == \A i \in 1..Len(e.ws) : e.ws[i] \in alive
 RemoveKey(seq, k) == SelectSeq(seq, LAMBDA e : e.k # k)
-RemoveWeak(seq, w) == SelectSeq(seq, LAMBDA e : e.w # w)
+RemoveWeak(seq, w) == SelectSeq(seq, LAMBDA e : ~HasWeak(e, w))   \* a connection lives only as long as ALL its weak arguments
 
-\* first entry matching (h, w), as disconnect-by-arguments finds it; 0 if none
-FirstMatch(seq, h, w) ==
-  IF \E j \in 1..Len(seq) : seq[j].h = h /\ seq[j].w = w
-  THEN seq[CHOOSE j \in 1..Len(seq) : seq[j].h = h /\ seq[j].w = w /\ \A i \in 1..(j - 1) : ~(seq[i].h = h /\ seq[i].w = w)].k
-  ELSE 0
+\* first entry made with exactly the arguments (h, ws, us), as disconnect-by-arguments finds it; 0 if none
+FirstMatch(seq, h, ws, us) ==
+  LET m == SelectSeq(seq, LAMBDA e : e.h = h /\ e.ws = ws /\ e.us = us) IN IF m = <<>> THEN 0 ELSE m[1].k
+
+IsPrefix(a, b) == Len(a) <= Len(b) /\ \A i \in 1..Len(a) : a[i] = b[i]
+
+(* Contract of disconnect-by-arguments: `removed` (0 = nothing) is the key that left the list. *)
+DisconnectVerdict(seq, removed, h, ws, us) ==
+  LET want == FirstMatch(seq, h, ws, us)
+  IN IF removed = want THEN "-"
+     ELSE IF removed = 0 THEN "disconnected_handler_never_called"      \* the named connection stays connected
+     ELSE "disconnect_unconnected_does_nothing"                         \* something that was not named went away
+
+(* Contract of the arguments of one call: weak arguments, then the user arguments AS GIVEN AT CONNECT TIME, then the emitted ones. *)
+ArgsVerdict(e, passed_ws, passed_us) ==
+  IF passed_ws = e.ws /\ passed_us = e.us THEN "-" ELSE "weak_then_user_then_emit_args"
 
 NewFrame(s, n, seq) == [s |-> s, n |-> n, snap |-> seq, disc |-> {}, added |-> {}, called |-> <<>>, rets |-> <<>>, i |-> 1]
 
@@ -48,5 +69,23 @@ FirstBroken(f, ret) ==
   ELSE IF ~InOrder(f) THEN "connection_order"
   ELSE IF ~OnlyConnected(f) THEN "disconnected_handler_never_called"
   ELSE IF ret # AnyTrue(f.rets) THEN "returns_any_true"
+  ELSE "-"
+
+(* ---- who keeps whom alive ------------------------------------------------------------- *)
+(* A heap is a set of objects, a set of ROOTS (what the application itself still holds) and *)
+(* a set E of strong references <<from, to>>.  An object survives reference counting iff it *)
+(* lies in the greatest set A containing the roots in which every non-root object has a     *)
+(* reference from A (cascading frees remove everything else); it survives the cycle         *)
+(* collector iff it is reachable from a root.                                               *)
+RECURSIVE ReachFrom(_, _)
+ReachFrom(A, E) ==
+  LET more == {e[2] : e \in {e \in E : e[1] \in A}} IN IF more \subseteq A THEN A ELSE ReachFrom(A \cup more, E)
+RECURSIVE RCSurvivors(_, _, _)
+RCSurvivors(A, roots, E) ==
+  LET keep == {x \in A : x \in roots \/ \E e \in E : e[2] = x /\ e[1] \in A} IN IF keep = A THEN A ELSE RCSurvivors(keep, roots, E)
+\* verdict on object x that the application has just let go of
+FreedVerdict(x, objs, roots, E, what) ==
+  IF x \in ReachFrom(roots, E) THEN "machinery_keeps_" \o what \o "_alive"
+  ELSE IF x \in RCSurvivors(objs \cup roots, roots, E) THEN "machinery_keeps_" \o what \o "_alive_until_cycle_gc"
   ELSE "-"
 =============================================================================
